@@ -213,7 +213,8 @@ CHECKS = {
              "non-seekable stream has unknown size (outside the property); "
              "known finding body-on-204.",
         technique="Coq proof (induction over write history, lia) + "
-                  "vm_compute correspondence"),
+                  "vm_compute correspondence"
+                  " + source-to-Coq translation of BaseResponse.__call__ / Declined.__call__ with proved equality to a model in which a response object answers at most once"),
     "C07": dict(
         text="Theorems: the window computed by __start_response__ equals an "
              "independent RFC 9110 oracle for every length L>=0 and every "
